@@ -65,6 +65,7 @@ def replay_path(front, nroutes, g, init, path, view):
     run = lifekit.LifeRun(front, nroutes)
     replay_path.last_dup = run.dup
     replay_path.last_base = run.base
+    replay_path.last_listarg = run.listarg
     try:
         d = diff(lifekit.expected(g.state[init]), run.project(), view)
         if d:
@@ -108,7 +109,7 @@ def stage_b(ctx, view_name, quick):
                     sig = '%s/%s/life/%s/%s' % (ctx.prop, front, act, var)
                     ctx.violation(sig, 'AppLife %s: after %s%s (step %d, previous %s) %s is %s, the specification says %s'
                                   % (front, act, tuple(args), i, prev, var, json.dumps(d[0][2]), json.dumps(d[0][1])),
-                                  {'kind': 'life', 'front': front, 'nroutes': nr, 'view': view_name, 'dup': getattr(replay_path, 'last_dup', 0), 'base': getattr(replay_path, 'last_base', ''),
+                                  {'kind': 'life', 'front': front, 'nroutes': nr, 'view': view_name, 'dup': getattr(replay_path, 'last_dup', 0), 'base': getattr(replay_path, 'last_base', ''), 'listarg': getattr(replay_path, 'last_listarg', False),
                                    'path': [[a, b] for a, b, _ in path[:i]], 'differences': [list(x) for x in d]})
             ctx.sample({'kind': 'life-path', 'front': front, 'routes': nr, 'actions': [[a, b] for a, b, _ in paths[-1][1][:12]]}, limit=2)
             ctx.note('AppLife replay %s %d routes (%s view): %d states, %d edges, %d paths; %d reconnections ran in a new event loop' %
@@ -116,7 +117,7 @@ def stage_b(ctx, view_name, quick):
 
 
 def replay(ctx, obj):
-    run = lifekit.LifeRun(obj['front'], obj['nroutes'], dup=obj.get('dup', 0), base=obj.get('base', ''))
+    run = lifekit.LifeRun(obj['front'], obj['nroutes'], dup=obj.get('dup', 0), base=obj.get('base', ''), listarg=obj.get('listarg', False))
     try:
         for act, args in obj['path']:
             print(act, args)
